@@ -49,6 +49,7 @@ var checks = map[string][]HarnessSpec{
 		{Name: "verifC08InnerRaw", Pkg: ".", Labels: []string{"inner-refused", "inner-ok"}},
 		{Name: "verifC08RetryExt", Pkg: ".", Labels: []string{"retry-refused"}},
 		{Name: "verifC08ServerHello", Pkg: ".", Labels: []string{"sh-refused", "sh-passed"}},
+		{Name: "verifC04RetryRules", Pkg: ".", Labels: []string{"retry-ran"}}, // structured ill-formed retried hellos: no panic (also registered under C04 and C06)
 	},
 	"C09": {
 		{Name: "verifC09KeySets", Pkg: ".", Labels: []string{"ran", "accepted", "passthrough"}},
